@@ -287,6 +287,7 @@ def run(ctx):
     from rules import range_end as _re
     _Ie = ctx.interp(fuel=50000000)
     _re.c17_edge(ctx, _Ie, T(_Ie))
+    _re.c17_routes(ctx, _Ie, T(_Ie))
 
     ctx.assumptions.append('day-line model: civil days are consecutive integers (C01), pillar = (day number + 49) mod 60 and weekday = (day number + 1) mod 7 (C07)')
     ctx.not_decided.append('on which civil days the solstices fall and what their pillars are (numeric; C05/C06); the piecewise structure is decided for every solstice pillar')
